@@ -29,6 +29,17 @@ type Clause struct {
 	Tags []string // property ids this clause serves (from the name prefix "C06/...")
 }
 
+// StableDecl: fields of a struct type that only the listed functions assign.
+type StableDecl struct {
+	Type    string
+	Fields  []string
+	Writers []string
+	PkgPath string
+	File    string
+	Line    int
+	T       types.Type // resolved
+}
+
 // Spec is a parsed specification expression: a chain of implications over Go expressions.
 type Spec struct {
 	Ante []ast.Expr // a ==> b ==> c  ==  Ante[a,b], Cons c
@@ -100,6 +111,7 @@ type SpecSet struct {
 	Defines   map[string]*Define
 	Aggs      []*AggSpec
 	RowInvs   []*RowInv
+	Stable    []*StableDecl
 	Lemmas    []*Lemma
 	Prefixes  []*PrefixFamily
 	Files     []string
@@ -387,6 +399,25 @@ func (ss *SpecSet) directive(cur **Contract, pkgPath, file string, ln int, body 
 			return fail(err)
 		}
 		ss.RowInvs = append(ss.RowInvs, &RowInv{Name: f[0], Table: f[2], RowType: f[4], Expr: sp, PkgPath: pkgPath, File: file, Line: ln})
+	case "stablefields":
+		// stablefields <pkg.Type> <Field> <Field> ... : <writer>, <writer>
+		// the listed fields of an object of this type are assigned only inside the listed
+		// functions (checked by a scan over all stores); a havoc of such an object through a
+		// pointer keeps them
+		parts := strings.SplitN(rest, ":", 2)
+		f := strings.Fields(parts[0])
+		if len(f) < 2 {
+			return fail(fmt.Errorf("stablefields <pkg.Type> <Field>... : <writers>"))
+		}
+		sd := &StableDecl{Type: f[0], Fields: f[1:], PkgPath: pkgPath, File: file, Line: ln}
+		if len(parts) == 2 {
+			for _, w := range strings.Split(parts[1], ",") {
+				if w = strings.ReplaceAll(strings.TrimSpace(w), " ", ""); w != "" {
+					sd.Writers = append(sd.Writers, w)
+				}
+			}
+		}
+		ss.Stable = append(ss.Stable, sd)
 	case "prefixfamily":
 		// prefixfamily <builder-tag> table <id> fixes <i,j> order <k,l>
 		f := strings.Fields(rest)
@@ -909,6 +940,13 @@ func (ev *evalEnv) importedPkg(name string, member ...string) *types.Package {
 		return cands[0]
 	}
 	return nil
+}
+
+func init() {
+	for _, m := range []string{"amm", "commitment", "stablestake", "leveragelp", "perpetual", "masterchef", "accountedpool", "oracle", "tradeshield", "estaking", "tier", "burner", "assetprofile", "parameter", "tokenomics", "epochs"} {
+		pkgAliases[m+"types"] = elysMod + "/x/" + m + "/types"
+	}
+	pkgAliases["stabletypes"] = elysMod + "/x/stablestake/types"
 }
 
 var pkgAliases = map[string]string{
